@@ -11,7 +11,9 @@ use std::sync::atomic::{AtomicBool, AtomicU64, Ordering};
 use std::sync::Mutex;
 use std::time::Instant;
 
-pub const VERIF_ROOT: &str = "/verif";
+pub fn verif_root() -> PathBuf {
+    PathBuf::from(std::env::var("FPV_ROOT").unwrap_or_else(|_| "/verif".into()))
+}
 
 #[derive(Clone, Copy, PartialEq, Eq, Debug)]
 pub enum Tier {
@@ -81,6 +83,7 @@ pub struct Worker {
     pub tier: Tier,
     pub strict: bool, // replay mode: known findings are not tolerated silently
     counter: AtomicU64,
+    samples_left: AtomicU64,
 }
 
 impl Worker {
@@ -93,7 +96,14 @@ impl Worker {
             tier,
             strict,
             counter: AtomicU64::new(0),
+            samples_left: AtomicU64::new(if idx < 3 { 1 } else { 0 }),
         }
+    }
+    /// true for the first case of the first workers: the case should attach a written-out sample
+    pub fn take_sample(&self) -> bool {
+        self.samples_left
+            .fetch_update(Ordering::Relaxed, Ordering::Relaxed, |x| x.checked_sub(1))
+            .is_ok()
     }
     /// fresh private file path
     pub fn path(&self, stem: &str) -> PathBuf {
@@ -168,7 +178,7 @@ pub struct KnownFinding {
 }
 
 pub fn load_known_findings() -> Vec<KnownFinding> {
-    let p = Path::new(VERIF_ROOT).join("known_findings.json");
+    let p = verif_root().join("known_findings.json");
     let Ok(s) = std::fs::read_to_string(&p) else {
         return vec![];
     };
@@ -356,7 +366,7 @@ pub fn run_property(prop: &Property, cfg: &RunCfg) -> i32 {
         violations = bysig.into_values().collect();
     }
     for v in &violations {
-        let dir = Path::new(VERIF_ROOT).join("replays").join(prop.id);
+        let dir = verif_root().join("replays").join(prop.id);
         std::fs::create_dir_all(&dir).ok();
         let body = serde_json::to_string_pretty(&v.replay).unwrap();
         let name = format!("{}_{:016x}.json", v.phase, fnv_str(&body));
@@ -413,7 +423,7 @@ pub fn run_property(prop: &Property, cfg: &RunCfg) -> i32 {
         "wall_s": t0.elapsed().as_secs_f64(),
         "violations": violations.len(),
     });
-    let evdir = Path::new(VERIF_ROOT).join("evidence");
+    let evdir = verif_root().join("evidence");
     std::fs::create_dir_all(&evdir).ok();
     if cfg.only_phase.is_none() {
         std::fs::write(
